@@ -1065,6 +1065,41 @@ func twinCases() []Case {
 	return cs
 }
 
+// A packet with a bad transport checksum at each position of a flow: [pre] good packets, the bad one,
+// [post] good packets that could be appended to it (equal sizes, adjacent sequence numbers; for UDP the
+// last one also shorter).  The bad one must be written as it came, nothing may be merged with it, and
+// what leaves the kernel must still fail verification.
+func badCsumCases() []Case {
+	g := &gen{r: rand.New(rand.NewSource(11))}
+	var cs []Case
+	for _, proto := range []byte{17, 6} {
+		for _, v6 := range []bool{false, true} {
+			for pre := 0; pre < 3; pre++ {
+				for post := 0; post < 3; post++ {
+					var f []*Pkt
+					for i := 0; i < pre+1+post; i++ {
+						n := 100
+						if proto == 17 && post == 2 && i == pre+post {
+							n = 40
+						}
+						var p *Pkt
+						if proto == 6 {
+							p = mkTCP(v6, uint32(1+100*i), 0x10, n)
+						} else {
+							p = &Pkt{V6: v6, Proto: 17, Src: 1, Dst: 2, Sport: 7, Dport: 8, TTL: 64, Payload: g.payload(n)}
+						}
+						p.BadL4 = i == pre
+						f = append(f, p)
+					}
+					name := fmt.Sprintf("badcsum/%s%s/%d-before/%d-after", map[byte]string{6: "tcp", 17: "udp"}[proto], map[bool]string{false: "4", true: "6"}[v6], pre, post)
+					cs = append(cs, g.assemble(name, [][]*Pkt{f}, 16, true, 0))
+				}
+			}
+		}
+	}
+	return cs
+}
+
 func fixedCases() []Case {
 	g := &gen{r: rand.New(rand.NewSource(5))}
 	t4 := func(dst byte, seq uint32) *Pkt { p := mkTCP(false, seq, 0x10, 100); p.Dst = dst; return p }
@@ -1350,6 +1385,7 @@ func main() {
 		}
 		cases = append(cases, fixedCases()...)
 		cases = append(cases, twinCases()...)
+		cases = append(cases, badCsumCases()...)
 		cases = append(cases, fixedWriteSeq()...)
 		g := &gen{r: rand.New(rand.NewSource(*seed))}
 		for i := 0; i < *n; i++ {
